@@ -138,8 +138,8 @@ func (c *Ctx) endScopeShape(fd *ast.FuncDecl) (bool, string) {
 		case *ast.IncDecStmt:
 			if isDepth(s.X) && s.Tok == token.DEC {
 				depthDec++
-				if idx != 0 {
-					return false, "scope.depth must be decremented first"
+				if loops > 0 || pops > 0 {
+					return false, "scope.depth must be decremented before the locals are examined"
 				}
 				continue
 			}
@@ -216,6 +216,20 @@ func (c *Ctx) endScopeShape(fd *ast.FuncDecl) (bool, string) {
 			if s.Post != nil {
 				body = append(body, s.Post)
 			}
+			// leading `if c { break }` statements are part of the guard: the loop goes on while cond && !c
+			var guardExtra []*condNF
+			for len(body) > 0 {
+				ifs, ok := body[0].(*ast.IfStmt)
+				if !ok || ifs.Else != nil || ifs.Init != nil || len(ifs.Body.List) != 1 {
+					break
+				}
+				bs, ok := ifs.Body.List[0].(*ast.BranchStmt)
+				if !ok || bs.Tok != token.BREAK || bs.Label != nil {
+					break
+				}
+				guardExtra = append(guardExtra, c.nnf(ifs.Cond, false, nil))
+				body = body[1:]
+			}
 			// per-iteration deltas
 			dL := linConst(0)
 			dv := map[types.Object]*Lin{}
@@ -234,10 +248,16 @@ func (c *Ctx) endScopeShape(fd *ast.FuncDecl) (bool, string) {
 				}
 			}
 			// guard: cursor > 0 && locals[cursor-1].depth > scope.depth
-			if s.Cond == nil {
-				return false, "loop without a guard"
+			var atoms []condAtom
+			pure := true
+			if s.Cond != nil {
+				atoms, pure = c.nnf(s.Cond, true, nil).conjuncts()
 			}
-			atoms, pure := c.nnf(s.Cond, true, nil).conjuncts()
+			for _, g := range guardExtra {
+				ga, gp := g.conjuncts()
+				atoms = append(atoms, ga...)
+				pure = pure && gp
+			}
 			if !pure || len(atoms) != 2 {
 				return false, "loop guard must be equivalent to cursor > 0 && locals[cursor-1].depth > scope.depth"
 			}
